@@ -177,7 +177,13 @@ def opFoldSeq (args : List String) (impl : String) : Result :=
               | some p, some q => Rules.sameUpToMapOrder p q
               | none, none => ex.length == ey.length
               | _, _ => false))
-          if same then [] else [s!"C17 fold-reused-iterator-differs-from-fresh type={t.print} value={v.print}"])
+          if same then [] else [s!"C17 fold-reused-iterator-differs-from-fresh type={t.print} value={v.print}"]) ++
+        -- C11: "a type that cannot be handled is refused with an error when folding … not by a
+        -- crash" — also on a reused iterator, whatever it has seen before
+        ((tvs.zip a).flatMap fun ((t, v), obs) =>
+          let verdict := (splitObs obs).2
+          if verdict == "panic" || verdict == "fatal" then
+            [s!"C11 fold-crashes-instead-of-refusing type={t.print} value={v.print} verdict={verdict}"] else [])
       { model := some model, fails := fails }
 
 /-- typeinfo <type> -/
